@@ -692,7 +692,35 @@ func (n *Node) exportImport() (res M, err error) {
 	}
 	qb["_same"], qa["_same"], qb["_n"], qa["_n"] = "-", "-", fmt.Sprint(len(reqs)), fmt.Sprint(len(reqs))
 	before["queries"], after["queries"], norm["queries"] = qb, qa, qn
-	return M{"before": before, "after": after, "norm": norm, "leaves": leaves, "queries": len(reqs), "initHeight": fmt.Sprint(exp.Height)}, nil
+	// the other export mode (`export --for-zero-height`): heights are reset and rewards withdrawn by design, so the
+	// document is not compared - but the export must succeed and a fresh chain must start from it
+	zeroErr := ""
+	func() {
+		defer func() {
+			if r := recover(); r != nil {
+				zeroErr = fmt.Sprint("panic: ", r)
+			}
+		}()
+		// (on the throw-away application that was just initialised from the ordinary export and committed: the
+		// preparation for zero height writes to the exporting application's check state)
+		expz, err := fresh.ExportAppStateAndValidators(true, nil, nil)
+		if err != nil {
+			zeroErr = "export: " + err.Error()
+			return
+		}
+		var zvals []abci.ValidatorUpdate
+		for _, gv := range expz.Validators {
+			zvals = append(zvals, tmtypes.TM2PB.NewValidatorUpdate(gv.PubKey, gv.Power))
+		}
+		z := openApp(dbm.NewMemDB())
+		z.InitChain(abci.RequestInitChain{ChainId: ChainID, Time: n.Time, Validators: zvals,
+			ConsensusParams: expz.ConsensusParams, AppStateBytes: expz.AppState, InitialHeight: 1})
+		z.Commit()
+	}()
+	if len(zeroErr) > 200 {
+		zeroErr = zeroErr[:200]
+	}
+	return M{"before": before, "after": after, "norm": norm, "leaves": leaves, "queries": len(reqs), "initHeight": fmt.Sprint(exp.Height), "zeroErr": zeroErr}, nil
 }
 
 func chainMain(args []string) error {
@@ -992,11 +1020,11 @@ func chainMain(args []string) error {
 			}
 			d, err := n.exportImport()
 			if err != nil {
-				emit(M{"ev": "export_import", "h": n.Height, "ok": false, "err": err.Error(), "before": M{"_": M{"_": "-"}}, "after": M{"_": M{"_": "-"}}, "norm": M{"_": M{"_": "-"}}})
+				emit(M{"ev": "export_import", "h": n.Height, "ok": false, "err": err.Error(), "before": M{"_": M{"_": "-"}}, "after": M{"_": M{"_": "-"}}, "norm": M{"_": M{"_": "-"}}, "zeroErr": ""})
 				continue
 			}
 			emit(M{"ev": "export_import", "h": n.Height, "ok": true, "err": "", "before": d["before"], "after": d["after"], "norm": d["norm"],
-				"leaves": d["leaves"], "queries": d["queries"], "initHeight": d["initHeight"]})
+				"leaves": d["leaves"], "queries": d["queries"], "initHeight": d["initHeight"], "zeroErr": d["zeroErr"]})
 		}
 	}
 done:
